@@ -442,6 +442,18 @@ func (r *simRun) checkWire() {
 					}
 				}
 				r.fail("%s: node %s received %q on connection %d, which is not (or not again) among the requests queued for that connection %q: the bytes were altered between queueing and writing", pid, b.peer.addr, clip(encodeCmd(cmd)), j, queued)
+				// whose input is it? keys carry the client number: a command made of another connection's bytes where
+				// this client's request had been queued is one client's input disturbing another connection (C12)
+				for k := b.enqChk; k < len(r.enq); k++ {
+					if e := r.enq[k]; e.backend == j {
+						if want, _, err := strictParse(e.req); err == nil && len(want) > 1 && len(cmd) > 1 {
+							if a, b2 := keyClient(want[1]), keyClient(cmd[1]); a >= 0 && b2 >= 0 && a != b2 {
+								r.fail("C12: node %s received %q, made of client %d's input, where client %d's request %q had been queued: one connection's bytes disturbed another connection's request", b.peer.addr, clip(encodeCmd(cmd)), b2, a, clip(e.req))
+							}
+						}
+						break
+					}
+				}
 				return
 			}
 		}
@@ -1130,6 +1142,9 @@ func (r *simRun) checkClients(after string) {
 		}
 		for i, rp := range replies {
 			q := c.reqs[i]
+			if len(rp) > r.cfg.limit && rp[0] != '-' {
+				r.fail("C17: client %d, request %d %q: a reply of %d bytes was delivered although the size limit is %d; it must be replaced by an error reply (%s)", ci, i, clip(encodeCmd(q.args)), len(rp), r.cfg.limit, after)
+			}
 			switch {
 			case q.failedBy == "err" && len(rp) > 0 && rp[0] != '-':
 				r.fail("C11: client %d, request %d %q: a node answered %q but the client received the non-error reply %q (%s)", ci, i, clip(encodeCmd(q.args)), clip(q.errLine), clip(rp), after)
@@ -1751,6 +1766,26 @@ func (r *simRun) markQueuedLost(j int) {
 	}
 }
 
+// keyClient: the client number a generated key carries ("c<ci>r<n>.<x>", possibly behind a "{tag}"), or -1
+func keyClient(k []byte) int {
+	str := string(k)
+	if i := strings.Index(str, "}"); strings.HasPrefix(str, "{") && i > 0 {
+		str = str[i+1:]
+	}
+	if !strings.HasPrefix(str, "c") {
+		return -1
+	}
+	j := strings.Index(str, "r")
+	if j < 2 {
+		return -1
+	}
+	n, err := strconv.Atoi(str[1:j])
+	if err != nil {
+		return -1
+	}
+	return n
+}
+
 func (r *simRun) domainTags() []string {
 	t := []string{"dom:C01", "dom:C03", "dom:C09", "dom:C10", "dom:C04"}
 	for _, c := range r.clients {
@@ -1782,7 +1817,16 @@ func (r *simRun) domainTags() []string {
 		t = append(t, "dom:C16")
 	}
 	if len(r.clients) > 1 {
-		t = append(t, "multi-client")
+		t = append(t, "multi-client", "dom:C12")
+	}
+	for _, c := range r.clients {
+		if c.invalid {
+			t = append(t, "dom:C12", "client-sent-malformed")
+			break
+		}
+	}
+	if r.cfg.limit < 4096 {
+		t = append(t, "dom:C17", "small-limit")
 	}
 	if r.tags["request-cut-across-reads"] {
 		t = append(t, "dom:C08")
